@@ -13,7 +13,6 @@ CONTRACT(PRE___ymcw_cmp(d1, d2), POST___ymcw_cmp(RV, d1, d2));
 
 /* ---------------------------------------------------------------- C04: month / year arithmetic (lazy ultimo) */
 /* (y, m) + n months: 12*y + (m-1) is moved by exactly n; the day field is untouched */
-#define MIDX(y, m) (12 * (int)(y) + (int)(m) - 1)
 #define PRE___ymd_add_m(d, n) (L_YMD(d) && (n) >= -30000 && (n) <= 30000 && MIDX((d).y, (d).m) + (n) >= MIDX(1601, 1) && MIDX((d).y, (d).m) + (n) <= MIDX(4095, 12))
 #define POST___ymd_add_m(ret, d, n) (L_YMD(ret) && (ret).d == (d).d && MIDX((ret).y, (ret).m) == MIDX((d).y, (d).m) + (n))
 static dt_ymd_t __ymd_add_m(dt_ymd_t d, int n)
@@ -22,7 +21,6 @@ CONTRACT(PRE___ymd_add_m(d, n), POST___ymd_add_m(RV, d, n));
 #define POST___ymd_add_y(ret, d, n) ((ret).d == (d).d && (ret).m == (d).m && (int)(ret).y == (int)(d).y + (n) && ((ret).u >> 22) == 0)
 static dt_ymd_t __ymd_add_y(dt_ymd_t d, int n)
 CONTRACT(PRE___ymd_add_y(d, n), POST___ymd_add_y(RV, d, n));
-#define L_YMCW(x) (V_YEAR((int)(x).y) && (x).m >= 1 && (x).m <= 12 && (x).c >= 1 && (x).c <= 5 && (x).w >= 1 && (x).w <= 7 && ((x).u >> 22) == 0)
 #define PRE___ymcw_add_m(d, n) (L_YMCW(d) && (n) >= -30000 && (n) <= 30000 && MIDX((d).y, (d).m) + (n) >= MIDX(1601, 1) && MIDX((d).y, (d).m) + (n) <= MIDX(4095, 12))
 #define POST___ymcw_add_m(ret, d, n) (L_YMCW(ret) && (ret).c == (d).c && (ret).w == (d).w && MIDX((ret).y, (ret).m) == MIDX((d).y, (d).m) + (n))
 static dt_ymcw_t __ymcw_add_m(dt_ymcw_t d, int n)
@@ -39,9 +37,14 @@ CONTRACT(PRE___ymcw_fixup(d), POST___ymcw_fixup(RV, d));
 static dt_ywd_t __ywd_add_y(dt_ywd_t d, int n)
 CONTRACT(PRE___ywd_add_y(d, n), POST___ywd_add_y(RV, d, n));
 #define PRE___ywd_fixup(d) (V_YEAR((int)(d).y) && (d).c >= 1 && (d).c <= 53)
-#define POST___ywd_fixup(ret, d) ((ret).y == (d).y && (ret).w == (d).w && (ret).hang == (d).hang && (int)(ret).c == ((int)(d).c > S_ISOWEEKS((int)(d).y) ? S_ISOWEEKS((int)(d).y) : (int)(d).c))
+#define POST___ywd_fixup(ret, d) ((ret).y == (d).y && (ret).w == (d).w && (ret).hang == (d).hang && ((ret).u >> 25) == ((d).u >> 25) && (int)(ret).c == ((int)(d).c > S_ISOWEEKS((int)(d).y) ? S_ISOWEEKS((int)(d).y) : (int)(d).c))
 dt_ywd_t __ywd_fixup(dt_ywd_t d)
 CONTRACT(PRE___ywd_fixup(d), POST___ywd_fixup(RV, d));
+
+#define PRE___yd_fixup(d) (L_YD(d))
+#define POST___yd_fixup(ret, d) ((ret).y == (d).y && (int)(ret).d == IMIN((int)(d).d, S_YDAYS((int)(d).y)))
+dt_yd_t __yd_fixup(dt_yd_t d)
+CONTRACT(PRE___yd_fixup(d), POST___yd_fixup(RV, d));
 
 /* ---------------------------------------------------------------- C07: business days */
 /* number of Mon-Fri days among day numbers 1..x (day 1 is a Monday): 5 per whole week + min(rest, 5) */
